@@ -409,6 +409,7 @@ class Repo(object):
             objflat.merge_registry(tree)
             objflat._link(tree)
             objflat.expand_element_attributes(tree)
+            objflat.unalias_memoised(tree)
             objflat.inline_skeletons(tree)
             objflat._link(tree)
             objflat.inline_generators(tree, lambda name, tree=tree, rel=rel: self._generator_named(tree, rel, name))
